@@ -92,6 +92,44 @@ func echoLengths(thorough bool) []int {
 	return out
 }
 
+// multiplexed: several calls of one client share a connection and are told apart by an index
+func multiplexed(l netlab.Link) bool {
+	return l.Client == "socket" || l.Client == "ws" || l.Client == "udp"
+}
+
+// pipeLengths: lengths of the first of two messages in flight together on one connection
+func pipeLengths(thorough bool) []int {
+	set := map[int]bool{}
+	add := func(lo, hi int) {
+		for i := lo; i <= hi; i++ {
+			set[i] = true
+		}
+	}
+	add(0, 40)
+	add(120, 136)
+	add(250, 260)
+	add(500, 524)
+	add(1000, 1040)
+	add(2036, 2060)
+	add(4080, 4110)
+	add(8180, 8200)
+	add(16370, 16400)
+	add(32760, 32780)
+	add(65490, 65540)
+	if thorough {
+		add(0, 9000)
+		for p := 14; p <= 20; p++ {
+			add(1<<uint(p)-16, 1<<uint(p)+16)
+		}
+	}
+	var out []int
+	for l := range set {
+		out = append(out, l)
+	}
+	sort.Ints(out)
+	return out
+}
+
 func flipPairs(thorough bool) (lens []int, idxs []uint32) {
 	lens = []int{0, 1, 2, 11, 12, 13, 255, 1024}
 	idxs = []uint32{0, 1, 2, 255, 256, 0x7fff, 0x10000, 0x7fffffff}
@@ -161,6 +199,17 @@ func enumerate(group string, thorough bool) []Scenario {
 				if link == "udp" && l > 65537 {
 					continue // far above the documented capacity of the transport
 				}
+				s := base
+				s.Len, s.Pat = l, p
+				out = append(out, s)
+			}
+		}
+	case "pipe":
+		for _, l := range pipeLengths(thorough) {
+			if link == "udp" && l > udpCapacity-2 {
+				continue // the request of the first call is its payload plus a two-byte tag
+			}
+			for _, p := range []int{0, 3} {
 				s := base
 				s.Len, s.Pat = l, p
 				out = append(out, s)
@@ -268,6 +317,11 @@ func groups() []string {
 	var g []string
 	for _, l := range netlab.Links {
 		g = append(g, "echo/"+l.Name+"/request", "echo/"+l.Name+"/response")
+	}
+	for _, l := range netlab.Links {
+		if multiplexed(l) {
+			g = append(g, "pipe/"+l.Name+"/request", "pipe/"+l.Name+"/response")
+		}
 	}
 	for _, part := range []string{"flip", "len", "struct"} {
 		for _, c := range serverCells {
@@ -534,6 +588,8 @@ func (x *executor) run(sc Scenario) {
 	switch {
 	case sc.Part == "echo":
 		x.echo(sc, link)
+	case sc.Part == "pipe":
+		x.pipe(sc, link, false)
 	case sc.Side == "server":
 		x.serverSide(sc, link)
 	default:
@@ -658,6 +714,136 @@ func (x *executor) echoTry(sc Scenario, link netlab.Link, retry bool) {
 	}
 	if len(x.res.Samples) < 2 && sc.Pat == 3 {
 		x.res.Samples = append(x.res.Samples, fmt.Sprintf("%s -> err=%v resp=%s", sc, err, show(resp)))
+	}
+}
+
+// ---- part 1b: two messages in flight together on one connection ----
+
+// pipe issues call A (payload of the scenario's length and pattern) and call B (a short message of "another
+// caller" made of the marker alphabet) together through one client, so that both travel on one multiplexed
+// connection back to back: A's message first, B's right behind it (the service releases A's answer when it has
+// B's request, and B's answer when A's has been produced). Oracle: each side is handed exactly its own bytes;
+// anything else (truncated, padded, completed with the neighbour's header or body) is reported; an error is
+// tried once more on a fresh connection and then reported as not delivered.
+func (x *executor) pipe(sc Scenario, link netlab.Link, retry bool) {
+	timeout := echoTimeout
+	if retry {
+		timeout = echoRetryTimeout
+	}
+	key := "pipe|" + sc.Link + "|" + sc.Side
+	if x.convicted[key] >= 3 {
+		timeout = echoConvictedTimeout
+	}
+	if x.lab == nil {
+		x.lab = &lab{link: link}
+	}
+	if x.lab.srv == nil || retry || x.lab.timeout != timeout {
+		if err := x.lab.open(timeout); err != nil {
+			x.res.Infra = append(x.res.Infra, "pipe lab: "+err.Error())
+			return
+		}
+	}
+	l := x.lab
+	netlab.Select(link.Client)
+	payload := pattern(sc.Pat, sc.Len, link)
+	other := []byte("SECRET-OF-USER-B/0001/SECRET-OF-USER-B/0002/")
+	var reqA, reqB, wantA, wantB []byte
+	if sc.Side == "request" {
+		reqA, reqB = append([]byte("A:"), payload...), append([]byte("B:"), other...)
+		wantA, wantB = []byte("ackA"), []byte("ackB")
+	} else {
+		reqA, reqB = []byte(fmt.Sprintf("A:give:%d:%d", sc.Len, sc.Pat)), []byte("B:give")
+		wantA, wantB = payload, other
+		if len(wantA) == 0 {
+			wantA = x.nilResp
+		}
+	}
+	respFor := map[byte][]byte{'A': wantA, 'B': wantB}
+	if sc.Side == "response" && sc.Len == 0 {
+		respFor['A'] = nil
+	}
+	seenB, doneA := make(chan struct{}), make(chan struct{})
+	var onceB, onceA sync.Once
+	gate := 500 * time.Millisecond
+	l.rec.Respond = func(req []byte) []byte {
+		if len(req) == 0 {
+			return nil
+		}
+		switch req[0] {
+		case 'A':
+			select { // hold A's answer until B's request is at the service too
+			case <-seenB:
+			case <-time.After(gate):
+			}
+			onceA.Do(func() { close(doneA) })
+		case 'B':
+			onceB.Do(func() { close(seenB) })
+			select { // B's answer right behind A's
+			case <-doneA:
+			case <-time.After(gate):
+			}
+		}
+		return respFor[req[0]]
+	}
+	x.distinct([]byte("pipe"+sc.Side), reqA, wantA)
+	mark := l.rec.Mark()
+	type out struct {
+		resp []byte
+		err  error
+	}
+	chA, chB := make(chan out, 1), make(chan out, 1)
+	go func() { r, e := netlab.Request(l.cli, reqA); chA <- out{r, e} }()
+	go func() { r, e := netlab.Request(l.cli, reqB); chB <- out{r, e} }()
+	a, b := <-chA, <-chB
+	entries := l.rec.Since(mark)
+	bad := false
+	for _, e := range entries {
+		switch {
+		case bytes.Equal(e.Request, reqA), bytes.Equal(e.Request, reqB):
+		case len(e.Request) > 0 && e.Request[0] == 'A':
+			bad = true
+			x.res.violate(sc, "service-"+classify(e.Request, reqA, reqB), fmt.Sprintf("two calls in flight on one connection; the first submitted %s (%d bytes); the service was handed %s", show(reqA), len(reqA), show(e.Request)))
+		default:
+			bad = true
+			x.res.violate(sc, "service-neighbour-"+classify(e.Request, reqB, reqA), fmt.Sprintf("two calls in flight on one connection; the second submitted %s; the service was handed %s", show(reqB), show(e.Request)))
+		}
+	}
+	check := func(name string, o out, want, neighbour []byte) (failed bool) {
+		switch {
+		case o.err != nil:
+			return true
+		case !bytes.Equal(o.resp, want):
+			bad = true
+			x.res.violate(sc, name+"-"+classify(o.resp, want, neighbour), fmt.Sprintf("two calls in flight on one connection (first: %d bytes, pattern %s); the service produced %s for this caller; it got %s", sc.Len, patNames[sc.Pat], show(want), show(o.resp)))
+		}
+		return false
+	}
+	failedA := check("caller", a, wantA, wantB)
+	failedB := check("neighbour", b, wantB, wantA)
+	switch {
+	case bad:
+		l.close()
+	case failedA || failedB:
+		x.res.count("pipe_errors")
+		if !retry && x.convicted[key] < 3 {
+			x.res.count("pipe_retries")
+			x.pipe(sc, link, true)
+			return
+		}
+		if x.convicted == nil {
+			x.convicted = map[string]int{}
+		}
+		x.convicted[key]++
+		x.res.violate(sc, "not-delivered-within-capacity", fmt.Sprintf("two calls in flight on one connection between two healthy peers (first: %d-byte %s, pattern %s): first caller: %v, second caller: %v", sc.Len, sc.Side, patNames[sc.Pat], a.err, b.err))
+		l.close()
+	default:
+		x.res.count("pipe_delivered_exactly")
+	}
+	if len(l.rec.Since(0)) > 256 {
+		l.rec.Truncate()
+	}
+	if len(x.res.Samples) < 2 && sc.Pat == 3 {
+		x.res.Samples = append(x.res.Samples, fmt.Sprintf("%s -> errA=%v errB=%v", sc, a.err, b.err))
 	}
 }
 
@@ -1135,6 +1321,8 @@ func jobSize(group string) int {
 	switch {
 	case strings.HasPrefix(group, "echo/"):
 		return 400
+	case strings.HasPrefix(group, "pipe/"):
+		return 60
 	case strings.HasPrefix(group, "flip/"):
 		return 700
 	}
